@@ -171,6 +171,21 @@ def run(tier):
                         bad(f'rule {rn}: {n_on} action calls with memoization > {n_off} without', 'id', {'calls<=': off})
                     if c['nomemo'] and rn in ('y', 'Z') and n_on != n_off:
                         bad(f'@nomemo rule {rn}: action ran {n_on} times, invocations {n_off}', 'id', {'calls': off})
+    # code -> spec: executions with the stateless members of the action family are recorded and validated against PegTrace: a rule
+    # that is not memoizable (@nomemo) must show a body evaluation after every `enter`; a memoized one may replay only what an
+    # earlier evaluation at that (position, rule) produced - FailedSemantics included
+    from ..pegcheck import trace_validate
+    tcases = []
+    step = 3 if tier == 'quick' else 1
+    for k, it in enumerate(items[ck.seed % step::step]):
+        if it.get('params'):
+            continue
+        act = ('failb', 'tag', 'failb', 'id')[k % 4]
+        cfg = make_cfg(chars_of(it['g'], it['texts']), nameguard=False, act=act, actrule='*')
+        cfg.update({'maxmiss': 100000, 'prune': True, 'memoize': True})
+        tcases.append({'ebnf': to_ebnf(it['g']), 'g': it['g'], 'cfg': cfg, 'texts': [''.join(t) for t in it['texts']],
+                       'settings': {'nameguard': False}, 'sem': act})
+    trace_validate(ck, tcases, label='C06 actions')
     ck.cov['distinct_nontrivial'] = len(seen)
     ck.cov['rule'] = (f'{len(items)} grammars (retry/backtracking shapes over rule calls, seeded random grammars, @nomemo variants, declared '
                       f'parameters) x all texts over {{a,b}} x {len(kinds)} semantics objects x {{model, generated parser}}; non-trivial = '
